@@ -5,7 +5,9 @@ use std::panic::{catch_unwind, AssertUnwindSafe};
 
 mod autdump;
 mod e_charset;
+mod e_looprange;
 mod e_regex;
+mod e_strconv;
 mod util;
 
 fn main() {
@@ -25,6 +27,8 @@ fn main() {
         let r = catch_unwind(AssertUnwindSafe(|| match engine {
             "charset" => e_charset::run(&toks),
             "regex" => e_regex::run(&toks),
+            "looprange" => e_looprange::run(&toks),
+            "strconv" => e_strconv::run(&toks),
             _ => panic!("unknown engine"),
         }));
         let s = match r {
